@@ -207,7 +207,7 @@ def run_unary(u, res):
                                 def out_of(pp):
                                     try:
                                         r_ = pp.parse(text)
-                                    except parglare.ParseError as ex:
+                                    except parglare.exceptions.ParglareError as ex:
                                         return type(ex).__name__
                                     if kind == "LR":
                                         return r_.to_str()
